@@ -32,6 +32,7 @@ def run(rep):
     rng = random.Random(rep.seed * 3 + 8)
     quick = rep.tier == 'quick'
     G = docgen.Gen(g, rng)
+    G.exponent_floats = True
     roots = sorted(g['elements'])
     cases = []
     for name in roots:
